@@ -126,10 +126,10 @@ class C06(core.Check):
         'illegal:cross-region-ref', 'illegal:cross-file-ref', 'illegal:ref-after-org', 'illegal:ref-after-memzone',
         'illegal:undefined', 'illegal:dup-global', 'illegal:dup-file', 'illegal:dup-local', 'illegal:orphan-local',
         'illegal:register-name', 'illegal:keyword-name', 'illegal:dup-global-across-files', 'illegal:dup-same-value',
-        'dead-branch-inside-region', 'dead-branch-between-local-def-and-use', 'const-between-def-and-use',
+        'dead-branch-inside-region', 'dead-branch-between-local-def-and-use', 'reference-on-a-muted-line', 'const-between-def-and-use',
         'files:1', 'files:2', 'files:3+', 'expect:ACCEPT', 'expect:REJECT', 'ref:forward', 'ref:backward']}
 
-    def build(self, rng, illegal):
+    def build(self, rng, illegal, mute_refs=None):
         nfiles = rng.choice([1, 1, 2, 2, 3, 4])
         fnames = ['p.asm'] + [f'inc{i}.asm' for i in range(1, nfiles)]
         files = {f: [] for f in fnames}
@@ -238,6 +238,19 @@ class C06(core.Check):
             ok = self.plant(rng, illegal, files, fnames, tags)
             if not ok:
                 return None
+        # some references sit inside #mute .. #unmute: a muted line emits nothing but its references are still resolved
+        if mute_refs is None:
+            mute_refs = rng.random() < 0.4
+        if mute_refs:
+            for f in fnames:
+                out_ = []
+                for it in files[f]:
+                    if it['k'] == 'ref' and rng.random() < 0.6:
+                        out_ += [{'k': 'mute'}, it, {'k': 'unmute'}]
+                        tags.add('reference-on-a-muted-line')
+                    else:
+                        out_.append(it)
+                files[f] = out_
         m = resolve_program(files, 'p.asm')
         if illegal and m['kind'] != 'REJECT':
             return None
@@ -251,6 +264,8 @@ class C06(core.Check):
                 lines.append({'k': 'data', 'width': 1, 'vals': [it['v']], 'src': it})
             elif k == 'ref':
                 lines.append({'k': 'data', 'width': 2, 'vals': [0], 'src': it})
+            elif k in ('mute', 'unmute'):
+                lines.append({'k': k, 'src': it})
             elif k in ('label', 'org', 'memzone', 'include_begin', 'include_end'):
                 lines.append(dict(it, src=it) if k in ('include_begin', 'include_end') else
                              {'k': k, 'name': it.get('name'), 'addr': it.get('addr'), 'zone_name': it.get('zone_name'), 'src': it})
@@ -294,6 +309,10 @@ class C06(core.Check):
                     out.append(f'#include "{it["target"]}"')
                 elif k == 'dead':
                     out.append(it['text'])
+                elif k == 'mute':
+                    out.append('#mute')
+                elif k == 'unmute':
+                    out.append(rng.choice(['#unmute', '#emit']))
             fl[f] = '\n'.join(out) + '\n'
         isa = gen_prog.layout_isa(16, endian='big', zones=zones)
         fn, text = isamod.render_isa(isa, 'json')
@@ -476,7 +495,7 @@ class C06(core.Check):
                 ill = ([None] + self.ILLEGAL)[made % (len(self.ILLEGAL) + 1)]
             elif rng.random() < 0.5:
                 ill = rng.choice(self.ILLEGAL)
-            c = self.build(rng, ill)
+            c = self.build(rng, ill, mute_refs=(made % 2 == 1) if made < n_pre else None)
             if c is None:
                 if made < n_pre:
                     made += 0
